@@ -59,6 +59,12 @@ def judge_types(ctx, exported, tag):
 
 def check_batch(ctx, cases, verdicts, descs, tag):
     """render the modules into one file, run the real checker, compare per module"""
+    # modules of more than 1000 lines are left out here: one such generated module overflows the front end's stack (the driver's
+    # too) - that crash is C06's finding (known/C06/generated_module_stack_overflow.dora); here it would end the whole batch
+    big = [c for c in cases if len(dsem_gen.render([c]).splitlines()) > 1000]
+    if big:
+        ctx.add("modules_left_out_over_1000_lines", len(big))
+        cases = [c for c in cases if c not in big]
     src = dsem_gen.render(cases)
     path = os.path.join(ctx.work, tag + ".dora")
     open(path, "w").write(src)
